@@ -184,7 +184,10 @@ impl IsaStringNode {
 
 impl Aml for IsaStringNode {
     fn to_aml_bytes(&self, sink: &mut dyn AmlSink) {
-        assert!(self.len() <= u16::MAX as usize, "ISA string node does not fit its length field");
+        assert!(
+            self.len() <= u16::MAX as usize,
+            "ISA string node does not fit its length field"
+        );
         // ISA string length (including NULL terminator)
         let strlen = self.string.len() as u16 + 1;
         let padding_reqd = strlen % 2 == 1;
@@ -241,7 +244,10 @@ impl HartInfoNode {
 impl Aml for HartInfoNode {
     // NOTE: assumes 1 handle for now
     fn to_aml_bytes(&self, sink: &mut dyn AmlSink) {
-        assert!(self.len() <= u16::MAX as usize, "hart info node does not fit its length field");
+        assert!(
+            self.len() <= u16::MAX as usize,
+            "hart info node does not fit its length field"
+        );
         let ty = RhctNodeType::HartInfo as u16;
         sink.word(ty);
         sink.word(self.len() as u16);
